@@ -49,6 +49,8 @@ import (
 //	                  ("other") or an unknown peer ("stranger") sends the block <kind> of that height
 //	         remove   the peer that holds the request for height base+d (or served it) is removed
 //	         timeout  the same peer's time-out timer fires (only if it owes an answer)
+//	         late     the peer that owes the answer for base+d is removed while its (genuine) answer
+//	                  is on the way
 //	         switch   a new peer appears and is the one asked from now on; nobody is removed
 //	         status   from=eligible: the asked peer re-announces its height (arg odd: two more than
 //	                  the chain has); from=lower: it announces a height below the pool's (it is
@@ -105,7 +107,7 @@ func rsGenKind(t *rapid.T, genuinePct int, label string) string {
 }
 
 var (
-	rsOps   = []string{"deliver", "deliver", "deliver", "deliver", "remove", "remove", "remove", "switch", "status", "timeout", "flush", "flush", "nop"}
+	rsOps   = []string{"deliver", "deliver", "deliver", "deliver", "remove", "remove", "remove", "switch", "status", "timeout", "late", "flush", "flush", "nop"}
 	rsFroms = []string{"asked", "asked", "asked", "asked", "asked", "other", "stranger"}
 	rsWho   = []string{"eligible", "other", "lower"}
 )
@@ -118,7 +120,7 @@ func rsGenAct(t *rapid.T, label string) RSAct {
 		a.Kind = rsGenKind(t, 30, label+"-kind")
 		a.From = rapid.SampledFrom(rsFroms).Draw(t, label+"-from")
 		a.Arg = rapid.IntRange(0, 7).Draw(t, label+"-arg")
-	case "remove", "timeout":
+	case "remove", "timeout", "late":
 		a.D = rapid.IntRange(0, 2).Draw(t, label+"-d")
 	case "status":
 		a.From = rapid.SampledFrom(rsWho).Draw(t, label+"-who")
@@ -148,7 +150,7 @@ func genRS(t *rapid.T) RSCase {
 	}
 	c.Attackers = rapid.SliceOfNDistinct(rapid.IntRange(0, rsMaxValID), 0, 3, func(i int) int { return i }).Draw(t, "attackers")
 	c.Bystanders = rapid.IntRange(0, 2).Draw(t, "bystanders")
-	c.Spare = rapid.IntRange(0, 9).Draw(t, "spare") < 8
+	c.Spare = rapid.IntRange(0, 9).Draw(t, "spare") < 9
 
 	// initial feed: the first answers in any order, some altered, some missing, some repeated or
 	// sent by peers that were not asked
@@ -256,8 +258,10 @@ type rsWorld struct {
 	vcalls       int
 	vfailed      int
 	last         *rsVerified
-	awaitExec    bool
+	awaitExec    bool   // a verification succeeded: the pool routine is on its way to the executer
+	awaitRedo    string // a verification failed: the pool routine is on its way to remove this peer (RedoRequest)
 	awaitSince   time.Time
+	poolDead     bool // the pool's mutex is held for ever: hands off
 	applied      int64
 	stalls       int
 	halted       bool // a violation was recorded, everything stands still
@@ -292,12 +296,79 @@ func (w *rsWorld) peer(id string) *p2p.Peer {
 
 func (w *rsWorld) snap() rsSnap { return w.pv.snap(w.n + 3) }
 
+// sigLate: BlockPool.AddBlock assumes that the sender of an accepted block is still in pool.peers and
+// that the requester is listening on gotBlockCh; neither holds while the asynchronous redo of a
+// just-removed peer's requesters is under way.
+const sigLate = "pool-addblock-races-with-redo-of-removed-peer"
+
+// receive hands message bytes of a peer to the reactor the way the peer's connection does: a
+// panic in Receive is caught by MConnection._recover on the receive routine, the connection is
+// stopped with that error and the switch removes the peer from every reactor. The node lives on,
+// but a peer was dropped because of a defect of the node: reported.
+func (w *rsWorld) receive(from string, msg []byte) {
+	defer func() {
+		if p := recover(); p != nil {
+			site := h.PanicSite(debug.Stack())
+			sig := "receive-panics:" + site
+			if site == "blockchain.(*bpPeer).decrPending" {
+				sig = sigLate
+			}
+			w.label("receive-panics-connection-dropped:" + site)
+			if w.x.Fail(sig, "Receive of a message from peer %s panicked (in production MConnection._recover drops the connection): %v", from, p) {
+				w.halted = true
+				return
+			}
+			if from == w.eligible {
+				w.eligible = ""
+			}
+			w.bcR.RemovePeer(w.peer(from), fmt.Errorf("%v", p))
+		}
+	}()
+	w.bcR.Receive(bcChannel, w.peer(from), msg)
+}
+
+// sendBlockGuarded is sendBlock for the one situation in which the pool can lock up: AddBlock
+// blocks on the requester's gotBlockCh while holding the pool's mutex, and the requester, which
+// took the redo first, waits for that mutex.
+func (w *rsWorld) sendBlockGuarded(from string, b *gtypes.Block) {
+	msg := wire.BinaryBytes(struct{ C13Message }{&blockResponseMsg{Block: b}})
+	done := make(chan struct{})
+	go func() {
+		defer close(done)
+		w.receive(from, msg)
+	}()
+	deadline := time.Now().Add(10 * time.Second)
+	for {
+		select {
+		case <-done:
+			return
+		case <-time.After(3 * time.Second):
+		}
+		if w.pv.mtx.TryLock() {
+			w.pv.mtx.Unlock() // slow, not locked up
+			if time.Now().Before(deadline) {
+				continue
+			}
+			w.inconclusive = "late-answer-slow"
+			w.poolDead = true
+			return
+		}
+		if time.Now().After(deadline) {
+			break
+		}
+	}
+	w.poolDead = true
+	w.halted = true
+	w.label("pool-locked-up")
+	w.x.Fail(sigLate, "the answer of peer %s, removed a moment ago, never returns from BlockPool.AddBlock: it holds the pool's mutex and waits for the requester, which took the redo and waits for the mutex; the pool (PeekTwoBlocks, every Receive) stands still for ever", from)
+}
+
 func (w *rsWorld) sendBlock(from string, b *gtypes.Block) {
-	w.bcR.Receive(bcChannel, w.peer(from), wire.BinaryBytes(struct{ C13Message }{&blockResponseMsg{Block: b}}))
+	w.receive(from, wire.BinaryBytes(struct{ C13Message }{&blockResponseMsg{Block: b}}))
 }
 
 func (w *rsWorld) sendStatus(from string, height int64) {
-	w.bcR.Receive(bcChannel, w.peer(from), wire.BinaryBytes(struct{ C13Message }{&statusResponseMsg{Height: height}}))
+	w.receive(from, wire.BinaryBytes(struct{ C13Message }{&statusResponseMsg{Height: height}}))
 }
 
 func (w *rsWorld) await(what string, cond func(s rsSnap) bool) bool {
@@ -457,6 +528,29 @@ func (w *rsWorld) act(a RSAct, base int64, where string) (effect bool) {
 			w.removePeer(id)
 			effect = true
 		}
+	case "late":
+		r, ok := s.reqs[g]
+		if _, in := s.peers[r.peer]; !ok || !in || r.blk != nil || w.chain.blocks[g] == nil {
+			w.label("%s:late:no-open-request", where)
+			return false
+		}
+		id := r.peer
+		if id == w.eligible {
+			if w.c.Spare {
+				w.newEligible()
+			} else {
+				w.eligible = ""
+			}
+		}
+		// the peer is removed while its answer is on the way: the answer reaches the pool before
+		// or after the requester has noticed (not the harness's choice; the state after is the same)
+		w.bcR.RemovePeer(w.peer(id), "reactorsched")
+		w.sendBlockGuarded(id, rsCopyBlock(w.chain.blocks[g]))
+		if w.poolDead || w.halted {
+			return false
+		}
+		w.settle()
+		effect = true
 	case "timeout":
 		id := w.targetPeer(s, g)
 		p := s.peers[id]
@@ -542,7 +636,8 @@ func (w *rsWorld) flush() int {
 	}
 	s := w.snap()
 	k := 0
-	for g := s.height; g <= w.n; g++ {
+	// highest first: the pair the pool routine is waiting for is completed by the last answers
+	for g := w.n; g >= s.height; g-- {
 		r := s.reqs[g]
 		if r.peer == "" || r.blk != nil {
 			continue
@@ -599,6 +694,7 @@ func (w *rsWorld) verifierLocked(bID gtypes.BlockID, hgt int64, lc *gtypes.Commi
 		return nil, true
 	}
 	w.awaitExec = false
+	w.awaitRedo = ""
 	w.last = nil
 	i := w.vcalls
 	w.vcalls++
@@ -662,10 +758,15 @@ func (w *rsWorld) verifierLocked(bID gtypes.BlockID, hgt int64, lc *gtypes.Commi
 		w.last = &rsVerified{h: hgt, id: bID, lc: lc}
 		w.awaitExec = true
 		w.awaitSince = time.Now()
-	} else if w.c.Spare {
-		// RedoRequest is about to remove the peer that holds the first block; a new peer is around
-		if r := after.reqs[hgt]; r.blk != nil && r.peer == w.eligible {
-			w.newEligible()
+	} else if r := after.reqs[hgt]; r.blk != nil && r.peer != "" {
+		// RedoRequest is about to remove the peer that holds the first block: nothing else happens
+		// until it has done so (the main goroutine waits for the peer to disappear)
+		if _, in := after.peers[r.peer]; in {
+			if w.c.Spare && r.peer == w.eligible {
+				w.newEligible() // a new peer is around
+			}
+			w.awaitRedo = r.peer
+			w.awaitSince = time.Now()
 		}
 	}
 	return err, false
@@ -780,6 +881,12 @@ func (w *rsWorld) onStall(s rsSnap) {
 	}
 	if k < len(w.c.Stalls) {
 		for _, a := range w.c.Stalls[k] {
+			if f, sec := w.pv.pool.PeekTwoBlocks(); f != nil && sec != nil {
+				// the pool routine can go on (and may be on its way into the verifier already):
+				// what is left of this list would no longer happen at a defined moment
+				w.label("stall:rest-of-list-dropped")
+				break
+			}
 			w.act(a, s.height, "stall")
 		}
 		w.flush()
@@ -865,6 +972,10 @@ func runRS(c RSCase, x *h.Ctx) {
 		x.Label("inconclusive:" + w.inconclusive)
 		return
 	}
+	if w.halted {
+		x.Label("outcome:halted-on-finding")
+		return
+	}
 	if _, err := w.bcR.Start(); err != nil {
 		x.Fail("harness-cannot-start-the-reactor", "%v", err)
 		return
@@ -877,7 +988,7 @@ func runRS(c RSCase, x *h.Ctx) {
 		w.mu.Lock()
 		switch {
 		case w.halted:
-			outcome = "violation"
+			outcome = "halted-on-finding"
 		case w.inconclusive != "":
 			outcome = "inconclusive:" + w.inconclusive
 		case w.applied >= w.n-1:
@@ -888,7 +999,19 @@ func runRS(c RSCase, x *h.Ctx) {
 			outcome = "stopped:switched-to-consensus"
 		case time.Since(start) > rsBudget:
 			outcome = "inconclusive:budget"
-		case !w.awaitExec || time.Since(w.awaitSince) > 600*time.Millisecond:
+		case (w.awaitExec || w.awaitRedo != "") && time.Since(w.awaitSince) < 800*time.Millisecond:
+			// the pool routine is between a closure and its next own step (pop + executer, or
+			// RedoRequest): the main goroutine keeps out of its way
+			if w.awaitRedo != "" {
+				if _, in := w.snap().peers[w.awaitRedo]; !in {
+					w.awaitRedo = ""
+				}
+			}
+		default:
+			if w.awaitExec || w.awaitRedo != "" {
+				w.label("pool-routine-did-not-take-its-next-step")
+				w.awaitExec, w.awaitRedo = false, ""
+			}
 			if f, s := w.pv.pool.PeekTwoBlocks(); f == nil || s == nil {
 				w.onStall(w.snap())
 			}
@@ -897,7 +1020,7 @@ func runRS(c RSCase, x *h.Ctx) {
 			break // w.mu stays held
 		}
 		w.mu.Unlock()
-		time.Sleep(300 * time.Microsecond)
+		time.Sleep(time.Millisecond)
 	}
 	stop()
 
